@@ -491,12 +491,19 @@ pub fn cli_ocsp_verify(resp: &[u8], ca: &Cert, subject: &Cert, anchors: &[Vec<u8
     let argv: Vec<&str> = args.iter().map(|s| s.as_str()).collect();
     let o = cli(&argv, d)?;
     let text = o.text();
-    let status = text
+    // "ee.pem: good" | "ee.pem: WARNING: Status times invalid." followed by a bare status line | "ee.pem: ERROR: No Status found."
+    let first = text
         .lines()
         .find_map(|l| l.strip_prefix("ee.pem: "))
         .map(|s| s.split_whitespace().next().unwrap_or("").to_lowercase())
         .unwrap_or_default();
-    let status = if status.starts_with("error") || status.starts_with("warning") { String::new() } else { status };
+    let status = if first == "good" || first == "revoked" || first == "unknown" {
+        first
+    } else if first.starts_with("warning") {
+        text.lines().map(|l| l.trim().to_lowercase()).find(|l| l == "good" || l == "revoked" || l == "unknown").unwrap_or_default()
+    } else {
+        String::new()
+    };
     Ok(OcspVerdict {
         signature_and_responder_ok: text.contains("Response verify OK"),
         times_ok: !text.contains("Status times invalid") && !text.contains("status expired") && !text.contains("status not yet valid"),
